@@ -288,6 +288,73 @@ func cloneStore(w *world.World) *env.Store {
 	return s
 }
 
+// adjacentC15: one, two or three entries that only one version has, next to one another in an inner node and
+// directly in front of a tall subtree both versions share. Keys B+1..B+n make the common part; the extra keys
+// u, 2u, 3u (u = bf^12: layers above the height, smaller than every other key) land at the front of the top node
+// with empty children between them. Every subset of the extra keys against every other subset, both directions.
+func adjacentC15(run *report.Run, acc *pairAcc, bf uint, n int) {
+	u := uint(1)
+	for i := 0; i < 12; i++ {
+		u *= bf
+	}
+	B := 8 * u
+	keys := []interface{}{u, 2 * u, 3 * u}
+	for i := 1; i <= n; i++ {
+		keys = append(keys, B+uint(i))
+	}
+	cfg := world.UintCfg(bf, keys, 1, ref.FormatBinary, "none")
+	cfg.Name = fmt.Sprintf("adjacent-one-sided-entries/uint %d+1..%d+%d and %d,%d,%d/bf%d", B, B, n, u, 2*u, 3*u, bf)
+	var vs []*bigTree
+	for mask := 0; mask < 8; mask++ {
+		skip := map[int]bool{}
+		for b := 0; b < 3; b++ {
+			if mask&(1<<b) == 0 {
+				skip[b] = true
+			}
+		}
+		bt, err := buildBig(cfg, skip, nil)
+		if err != nil {
+			run.HarnessError("%s: %v", cfg.Name, err)
+			return
+		}
+		vs = append(vs, bt)
+	}
+	st := cloneStore(vs[0].w)
+	for _, v := range vs[1:] {
+		for _, nm := range v.w.Store.Names() {
+			b, _ := v.w.Store.Has(nm)
+			st.M[nm] = b
+		}
+	}
+	var pairs int64
+	for i := range vs {
+		for j := range vs {
+			if i == j {
+				continue
+			}
+			mk := func(bt *bigTree) *version {
+				w2 := *vs[0].w
+				w2.Store = st
+				t, err := bt.root.LoadMast(ctx, w2.RemoteConfig(st, false))
+				if err != nil {
+					return nil
+				}
+				return &version{w: &w2, t: t, root: bt.root, link: linkOf(bt.root), reach: bt.reach, c: world.Contents{M: map[int]int{}, Size: bt.root.Size}}
+			}
+			a, b := mk(vs[i]), mk(vs[j])
+			if a == nil || b == nil {
+				continue
+			}
+			a.w = b.w // one world, one store log (checkDiffCost resets and reads the log of both sides)
+			pairs++
+			desc := []string{cfg.Name, fmt.Sprintf("old version: common keys plus extra keys by bit mask %03b; new version: mask %03b (heights %d / %d)", i, j, vs[i].root.Height, vs[j].root.Height)}
+			acc.add(cfg, "C15", checkDiffCost(cfg, a, b), desc)
+		}
+	}
+	acc.pairs += pairs
+	run.Parts = append(run.Parts, map[string]interface{}{"part": "adjacent one-sided entries in front of a tall common subtree: all subsets of three extra keys against each other", "config": cfg.Name, "ordered_pairs": pairs, "height": vs[0].root.Height})
+}
+
 // structC15: struct keys (ordered by a comparator of their own, layered through the configured marshaler) in a
 // ruler of layers 0..4; the full version against the version without one key, for every key, both directions,
 // each tree with a marshaler of its own. checkDiffCost then lets every single Marshal call of either side fail,
